@@ -120,7 +120,7 @@ namespace parmcb {
         typedef typename boost::graph_traits<Graph>::edge_descriptor Edge;
         typedef typename boost::property_traits<WeightMap>::value_type WeightType;
 
-        SPTree(std::size_t id, const Graph &g, const VertexIndexMapType& index_map, const WeightMap &weight_map, const Vertex &source) :
+        SPTree(std::size_t id, const Graph &g, const VertexIndexMapType& index_map, WeightMap weight_map, const Vertex &source) :  // R07b positive: by-value
                 _id(id), _g(g), _weight_map(weight_map), _index_map(index_map), _source(
                         source), _tree_node_map(boost::num_vertices(g)), _first_in_path(boost::num_vertices(g)) {
             initialize();
